@@ -54,6 +54,7 @@ def library():
                        ("floatkey", "1.5: v"), ("upperkey", "Author: Me\nDATE: today")):
         add("frontmatter", name, ["---"] + body.split("\n") + ["---", "", "# H"], toponly=True, silent=True)
     add("frontmatter", "bigint", ["---", "a: 0x" + "f" * 5000, "b: [0x" + "f" * 5000 + "]", "c: 1", "---", "", "# H"], toponly=True)
+    add("frontmatter", "datekey_nested", ["---", "a:", "  2020-01-01: x", "b: 1", "---", "", "# H"], toponly=True)
     add("frontmatter", "datelist", ["---", "a: [2020-01-01]", "b: {c: 2020-01-01}", "---"], toponly=True, silent=True)
     add("frontmatter", "unclosed", ["---", "a: 1", "", "text"], toponly=True, silent=True)
     # directive options
@@ -100,6 +101,7 @@ def library():
     add("html", "img_no_src_value", ["<img src>", "", "<img src="], silent=True)
     add("html", "div_class_no_value", ["<div class>", "x", "</div>"], silent=True)
     add("html", "marked_section", ['<div class="admonition">', "<![<", "</div>"])
+    add("html", "deep_nesting", ['<div class="admonition">' + "<b>" * 400])
     add("html", "img_missing_src", ['<img alt="a">'])
     # substitutions
     add("substitution", "undefined", ["{{ nosuchsub }}"])
@@ -115,6 +117,7 @@ def library():
     add("structure", "hr_first_in_container", ["> ---", "", "- ***"], silent=True)
     add("structure", "hr_first_in_topic", ["```{topic} T", "***", "", "text", "```", "", "```{sidebar} S", "___", "", "text", "```"], silent=True, toponly=True)
     add("structure", "footnote_superscript", ["a[^²] b[^1] c[^x]", "", "[^²]: p", "", "[^1]: q", "", "[^x]: r"], silent=True)
+    add("structure", "footnote_target_clash", ["(1)=", "# H", "", "[^1]: text", "", "x[^1]", "", "```{note}", ":name: 3", "n", "```", "", "[^3]: t", "", "(nm)=", "p", "", "[^nm]: u"], silent=True, toponly=True)
     add("structure", "ragged_table", ["| a | b |", "|---|---|", "| 1 |", "| 1 | 2 | 3 |"], silent=True)
     add("structure", "deep_heading", ["###### h6"], silent=True)
     add("structure", "dup_footnote", ["[^q1]: a", "", "[^q1]: b", "", "[^nosuchfn]"], silent=True)
